@@ -145,7 +145,13 @@ def one_dataset(obs, rng, conv, spec, workdir=None):
         return
     for _ in range(3):
         k = int(rng.integers(1, 11))
-        pts_cls = [pc for pc in query_points(model, rng, k * 2) if not near_skipped(model, pc[0])][:k]
+        pts_cls = [pc for pc in query_points(model, rng, k * 2, fixed=False) if not near_skipped(model, pc[0])][:k]
+        # two of the coordinates that every dataset of this worker is asked about (state leaking between datasets)
+        from shapely.geometry import Point
+        from ..geomgen import FIXED_POINTS
+        for xy in [FIXED_POINTS[int(i)] for i in rng.choice(len(FIXED_POINTS), size=2, replace=False)]:
+            if not near_skipped(model, Point(*xy)):
+                pts_cls.append((Point(*xy), 'fixed_probe'))
         if rng.random() < 0.35:
             pts_cls = [pc for pc in pts_cls if locate(polys, pc[0])[0] is not None]
         if not pts_cls:
